@@ -6,9 +6,10 @@ PID = "C16"
 MODEL_VOS = ["model/TrafficPattern.vo"]
 ASSUMPTIONS = [
     "on-the-wire half: driver e2e (-prop C16) runs real client and server Muxes over simnet with explicit patterns on each side and checks on every decoded segment: paddings <= configured maxima (0 = none), nonce prefix class/length/fixed prefix (every UDP packet when applyToAllUDPPacket), low-entropy types only when configured with the configured mode and rotation, server low entropy only after the client used it (oracle only)",
-    "rng.FixedInt(n, hint) is an oracle with only 0 <= v < n assumed; the driver obtains the values from the real function with the same (n, \"<seed>:<field>\") arguments, checks range and stability on every draw and hands them to the model runner",
+    "rng.FixedInt(n, hint) is an oracle with only 0 <= v < n assumed in the theorems; the driver obtains the values from the real function with the same (n, \"<seed>:<field>\") arguments, checks range and stability on every draw and hands them to the model runner",
+    "contract of rng.FixedInt tested by the driver (docs: same seed and unlockAll => implicit patterns do not change; rng.go: same hint => same value, the cache only accelerates): a pure function of (n, hint) = 31 bits of sha256(hint) mod n, independent of earlier calls; checked on every oracle-table draw (same hint asked with 16 different n, ascending or descending), by evaluating inputs that share hints (unlockAll true/false, explicit/implicit minLen or maxLen) alone and in both orders in fresh child processes and in-process, and by re-evaluating a sample of cases in a fresh process each",
     "math/rand draws (nonce rewrite length, choice among several fixed prefixes) are not observable: the runner accepts a set of observed lengths iff every one is explained by some draw in range",
-    "bounds that are literals inside config.go functions (ranges of generated values, validation limits) are recovered behaviourally by dumpconsts (largest accepted value; extreme generated values over seeds 0..4095) and enter the proofs as regenerated constants",
+    "bounds that are literals inside config.go functions (ranges of generated values, validation limits) are recovered behaviourally by dumpconsts (largest accepted value; extreme generated values over seeds 0..4095, measured in a fresh child process per unlockAll value so that they do not depend on evaluation history) and enter the proofs as regenerated constants",
     "int32 fields are modelled as unbounded Z (every value the driver uses is an int32); enum fields as Z",
     "Encode/Decode round trip is a property of google.golang.org/protobuf and encoding/base64: tested on every valid case, not proved",
     "besides the e2e wire driver, the functions that derive wire behaviour from a pattern (nonceRewriteLen, newNonce apply rule, maxPaddingSizeWithTrafficPattern, lowEntropySendConfig) are compared with the model through hooks",
